@@ -2,6 +2,7 @@
 from vf import gen, ref
 from vf.core import call, exc_desc
 from vf.lazy import ck, libx, common
+from vf.monitors import algos
 
 PROP = "C07"
 TECHNIQUE = ('runtime monitoring: ParFront vs ParCons partitions judged against ALL minimisers enumerated by a DP oracle; consistent_with judged on generated pairs with known truth')
@@ -98,14 +99,9 @@ def make_pair(case):
     return groups, cons
 
 
-def check_case(case, ctx):
-    ds, sch = case["ds"], case["scheme"]
-    common.set_case(ctx, case)
-    dataset = libx.mk_dataset(ds)
-    scheme = libx.mk_scheme(sch)
+def judge_partitions(case, ctx, ds, dataset, scheme, base):
+    sch = case["scheme"]
     elems = ref.universe(ds)
-    base = {"ds": ds, "scheme": sch}
-    ctx.count("class:" + case.get("dcls", "?"))
     st, pf = call(ck.OrderedPartition.parfront_partition, dataset, scheme)
     st2, pc = call(ck.OrderedPartition.parcons_partition, dataset, scheme)
     if st == "exc" or st2 == "exc":
@@ -185,6 +181,29 @@ def check_case(case, ctx):
                 ctx.nontrivial(base)
                 ctx.sample({**base, "parcons": cons_groups, "parfront": front,
                             "nb_optima": None if mins is None else len(mins)}, key="d" + str(differs))
+
+
+def check_case(case, ctx):
+    ds, sch = case["ds"], case["scheme"]
+    common.set_case(ctx, case)
+    dataset = libx.mk_dataset(ds)
+    scheme = libx.mk_scheme(sch)
+    elems = ref.universe(ds)
+    base = {"ds": ds, "scheme": sch}
+    ctx.count("class:" + case.get("dcls", "?"))
+    judge_partitions(case, ctx, ds, dataset, scheme, base)
+    # history: the Dataset object just partitioned is mutated in place (or a dataset derived from it is) and partitioned
+    # again: judged against the rankings it holds now
+    if not case.get("blocks") and len(elems) >= 3 and case["pair_seed"] % 3 == 0:
+        import random
+        r2 = random.Random(case["pair_seed"])
+        kind, ok = algos.mutate_in_place(dataset, ds, r2)
+        st_now, now = call(libx.raw_dataset, dataset)
+        if ok and st_now == "ok" and len(ref.universe(now)) >= 2:
+            ctx.count("runs_after_in_place_mutation")
+            ctx.count("history:" + kind)
+            judge_partitions({**case, "blocks": None}, ctx, now, dataset, scheme,
+                             {"ds": now, "scheme": sch, "after": kind, "original_ds": ds})
     # -- consistent_with ------------------------------------------------------------------------------
     groups, cons = make_pair(case)
     truth = ref.respects(cons, groups)
@@ -221,6 +240,7 @@ def reach(counters, tier, info):
                             ("optimal consensuses checked against ParFront", "optima_checked", 2000 * k),
                             ("cases with several optima", "cases_with_several_optima", 100 * k),
                             ("consistent_with pairs judged", "consistent_pairs", 1000 * k),
+                            ("Dataset objects partitioned again after an in-place mutation", "runs_after_in_place_mutation", 150 * k),
                             ("datasets of 11+ elements judged by the composite block oracle (all optima known)",
                              "blocks_strict", 20 * k)]:
         v = counters.get(key, 0)
